@@ -39,8 +39,8 @@ CHECKS["C20"] = dict(
         dict(pkg="server", name="C20_waitqueue", bound="LockManagerWaitQueue pre-filled with 0 / 7 / 8 / 9 / 150 / 300 waiters (inline slice, its compaction and growth, overflow ring), 0 / 1 / 5 popped, then every program of 4 operations from {push priority 0, push priority 1, pop, observe head+length+iteration, switch to priority mode (RePushPriorityRingQueue)} against a FIFO / stable priority queue", flags=["-witness", "500"], reach=["end"]),
         dict(pkg="server", name="C20_holdqueue", bound="LockManagerLockQueue pre-filled with 0 / 5 / 6 / 7 / 140 / 300 holders (inline slice, compaction, scale queue + id map), then every program of 4 operations from {push, pop first live, release an entry in place (first / middle / last), iterate live entries, GetLock of a live entry}", flags=["-witness", "1000"], reach=["end"]),
         dict(pkg="server", name="C20_lockqueue7", bound="as C20_lockqueue with 7 operations", flags=["-witness", "1000000"], reach=["end"], thorough_only=True),
-        dict(pkg="server", name="C20_deques7", bound="as C20_deques with 7 operations and constructor parameters (1,1,1), (1,3,2), (2,2,1), (2,3,2)", flags=["-witness", "1000000"], reach=["end"], thorough_only=True),
-        dict(pkg="server", name="C20_ring8", bound="as C20_ring with 8 operations", flags=["-witness", "1000000"], reach=["end"], thorough_only=True),
+        dict(pkg="server", name="C20_deques6", bound="as C20_deques with 6 operations and constructor parameters (1,1,1), (1,3,2), (2,2,1), (2,3,2)", flags=["-witness", "1000000"], reach=["end"], thorough_only=True),
+        dict(pkg="server", name="C20_ring7", bound="as C20_ring with 7 operations", flags=["-witness", "1000000"], reach=["end"], thorough_only=True),
     ],
 )
 
@@ -221,3 +221,22 @@ CHECKS["C15"] = dict(
         dict(pkg="server", name="C15_unlock", bound="SET/APPEND (1..2 symbolic bytes) carried by a plain unlock, a re-entrant re-lock, an unlock of one level and an unlock of all levels of a depth-2 hold", flags=["-witness", "5"], reach=["end"]),
     ],
 )
+
+
+# ---------------------------------------------------------------------------
+# deeper variants, thorough tier only (each run clean on the unchanged tree before being listed)
+def _thorough(prop, name, bound, flags=None, reach=("end",), **kw):
+    CHECKS[prop]["harnesses"].append(dict(pkg="server", name=name, bound=bound, flags=list(flags or []), reach=list(reach), thorough_only=True, **kw))
+
+
+_thorough("C01", "C01_hist3", "3 operations from the empty database, core profile", ["-witness", "2000"], reach=["end", "grant"])
+for _p, _extra in (("C02", "; lock flags show/update excluded"), ("C03", ""), ("C04", ""), ("C17", "")):
+    _thorough(_p, _p + "_step_big", "as %s_step with up to 4 holders and up to 3 queued requests%s" % (_p, _extra), ["-witness", "5000"])
+    _thorough(_p, _p + "_step_flags", "as %s_step, the step's LOCK also with symbolic minute flags and the 0xffff time class%s" % (_p, _extra), ["-witness", "1000"])
+_thorough("C05", "C05_sim64", "as C05_sim with T in 1..64 s (every re-check round of the second wheel and the long-wait table)", ["-witness", "50"])
+_thorough("C06", "C06_sim64", "as C06_sim with E in 1..64 s", ["-witness", "50"])
+_thorough("C08", "C08_cut5", "as C08_cut with 1..5 records", ["-witness", "20"])
+_thorough("C09", "C09_ring8", "as C09_ring with every program of 8 operations", ["-witness", "50000"], reach=["end", "popped", "drained", "out-of-buf"])
+_thorough("C11", "C11_ack5", "as C11_ack with every sequence of <=5 events", ["-witness", "200"])
+_thorough("C12", "C12_single7", "as C12_single with any order of at most 7 deliveries", ["-witness", "5000"])
+_thorough("C15", "C15_ops4", "as C15_ops with every sequence of 4 operations", ["-witness", "100"])
